@@ -67,7 +67,7 @@ extern int cq_unknowns(const cq_cal_t *cal);	/* per system */
 
 /* singular values of the coefficient matrix of system `sys` at frequency
  * findex, with measurements taken from `m_of_std` (nstd matrices R x C,
- * NULL = use the stored ones).  Returns 0 and sets *smin, *smax; returns -1
+ * NULL = use the stored ones), columns scaled to unit norm.  Returns 0 and sets *smin, *smax; returns -1
  * if there are no equations. */
 extern int cq_singular_values(const cq_cal_t *cal, int sys, int findex,
 	const double complex *const *m_of_std, double *smin, double *smax);
